@@ -135,6 +135,26 @@ def run(chk):
                     cmp("spheropolyhedron.volume(core resized)", sp.volume, V2 + S2 * r + 4 * math.pi * M2 * r * r + 4 / 3 * math.pi * r ** 3, rel=1e-8, extra=ex2)
                     cmp("spheropolyhedron.surface_area(core resized)", sp.surface_area, S2 + 8 * math.pi * M2 * r + 4 * math.pi * r * r, rel=1e-8, extra=ex2)
                     cmp("spheropolyhedron.mean_curvature(core resized)", sp.mean_curvature, M2 + r, rel=1e-8, extra=ex2)
+            # a value ASSIGNED as the volume / surface area of the rounded shape is its Steiner volume / area: the shape that results (core and
+            # radius scaled together) reports the assigned value, and that value is the Steiner expression of the resulting core and radius
+            if r is radii[1]:
+                for prop, steiner in (("volume", lambda k, rr: vol * k ** 3 + S * k * k * rr + 4 * math.pi * M * k * rr * rr + 4 / 3 * math.pi * rr ** 3),
+                                      ("surface_area", lambda k, rr: S * k * k + 8 * math.pi * M * k * rr + 4 * math.pi * rr * rr)):
+                    if getattr(getattr(coxeter.shapes.ConvexSpheropolyhedron, prop, None), "fset", None) is None:
+                        continue
+                    sp3 = coxeter.shapes.ConvexSpheropolyhedron(V, r)
+                    cur = steiner(1.0, r)
+                    for tgt in (cur, 2.5 * cur):      # (assigning the current value changes nothing)
+                        st, _ = C.excname(setattr, sp3, prop, tgt)
+                        if st != "ok":
+                            chk.count("steiner-assignment:setter-raised(not judged here)"); break
+                        r3 = float(sp3.radius)
+                        k3 = float(np.max(np.linalg.norm(np.asarray(sp3.polyhedron.vertices, float) - np.asarray(sp3.polyhedron.vertices, float).mean(0), axis=1))
+                                   / np.max(np.linalg.norm(V - V.mean(0), axis=1)))
+                        ex3 = dict(radius=r, assigned={prop: tgt}, resulting_radius=r3, core_scale=k3)
+                        cmp("spheropolyhedron.%s(after assigning it): reported" % prop, getattr(sp3, prop), tgt, rel=1e-8, extra=ex3)
+                        cmp("spheropolyhedron.%s(after assigning it): Steiner value of the resulting core and radius" % prop, steiner(k3, r3), tgt, rel=1e-8, extra=ex3)
+                        chk.count("steiner-assignment")
         chk.count("core:" + m["kind"])
         chk.sample(dict(kind=m["kind"], nverts=len(V), M_exact=M, M_impl=float(p.mean_curvature), nedges=nE))
     spheropolygons(chk, rng, 40 if chk.tier == "quick" else 600)
